@@ -8,7 +8,7 @@ THEOREMS = ["Mesa.Computed." + t for t in (
     "C17_no_stale_partial", "C17_define_fresh", "C17_clean_is_fresh", "C17_remembers_exactly_last_reads",
     "C17_minimal_partial", "C17_cached_read_is_free", "C17_cycle_rejected_partial",
     "C17_no_stale_refuted_with_reading_handler", "C17_cycle_rejected_refuted_after_intermediate_write")]
-COUNTS = {"quick": 1500, "thorough": 40000}
+COUNTS = {"quick": 1500, "thorough": 150000}
 EXHAUSTIVE = {"thorough": True}
 TRUSTED = [
     "a Computed's function is a read tree (what it returns depends only on the Observables / Computables it reads, in the "
